@@ -144,7 +144,8 @@ OnVs(ev) ==
        s |-> st, e |-> encD, d |-> decD]
 OnSize(ev) ==
    [v |-> (IF ev.x \notin Live(st) /\ (ev.aligned >= 0 \/ ev.frag >= 0 \/ ev.min >= 0) THEN {"C08 size query on a dead descriptor must fail"} ELSE {})
-          \cup (IF ev.x \in Live(st) /\ ev.len < 100000000 /\
+          \cup (IF ev.x \in Live(st) /\ ~Has(ev, "ik") THEN {"C14 a live descriptor is not found by the registry lookup"} ELSE {})
+          \cup (IF ev.x \in Live(st) /\ Has(ev, "ik") /\ ev.len < 100000000 /\
                    (ev.aligned # Aligned(ev.ibe, ev.ik, ev.len) \/ ev.frag # FragSize(ev.ibe, ev.ik, ev.len) \/ ev.min # MinEncode(ev.ibe, ev.ik))
                 THEN {"C08 size queries of a live instance"} ELSE {})
           \cup (IF ev.ff # 0 THEN {"C16 library freed a pointer it does not own"} ELSE {}) \cup NoDelta(ev),
